@@ -293,15 +293,21 @@ def rule_self_captures(rep: Report, ix, km: ck.KeyModel, site: ck.Site, caps: li
         storages |= facts.storage_of(cls, a)
     where = sorted({f"{ck.display_name(c.func)}:{c.how}" for c in caps})
     keyed, by_content = identity_in_extra_args(site, storages, facts)
-    rep.oblige(f"capture-keyed-or-invalidated:{ck.display_name(site.func)}", True, {"attributes": attrs, "storage": sorted(storages), "captured_in": where, "identity_in_extra_args": keyed})
+    rep.oblige(
+        f"captured-address-keyed:{ck.display_name(site.func)}",
+        True,
+        {"attributes": attrs, "storage": sorted(storages), "captured_in": where, "identity_in_extra_args": keyed, "otherwise": "every re-bind must invalidate (rebind-* obligations)"},
+    )
     if keyed:
         return
     n_rebinds = 0
+    n_assignments = 0
     for k in facts.family(cls):
         for defs in k.methods.values():
             for f in defs:
                 for stmt, storage, value in ck.rebinds(f, storages):
                     tag = f"{ck.display_name(f)}:{storage}"
+                    n_assignments += 1
                     if f.node.name in CONSTRUCTORS:
                         rep.note(f"re-bind of {storage} in constructor {ck.display_ref(f)}: exempt (object under construction)")
                         continue
@@ -329,7 +335,9 @@ def rule_self_captures(rep: Report, ix, km: ck.KeyModel, site: ck.Site, caps: li
                             line=stmt.lineno,
                             chain=list(caps[0].chain),
                         )
-    rep.extra.setdefault("rebind_statements", {})[ck.display_name(site.func)] = n_rebinds
+    if n_assignments == 0:
+        raise AnalysisError(f"{site.ref}: no assignment to the storage {sorted(storages)} of the captured attribute(s) {attrs} was found in the class family: storage resolution failed")
+    rep.extra.setdefault("rebind_statements", {})[ck.display_name(site.func)] = {"assignments": n_assignments, "obligations": n_rebinds}
 
 
 def rule_arg_captures(rep: Report, ix, km: ck.KeyModel, ka: ck.KeyAnalysis, site: ck.Site, root: str, caps: list[ck.Capture], facts: ck.ClassFacts) -> None:
@@ -372,6 +380,8 @@ def rule_arg_captures(rep: Report, ix, km: ck.KeyModel, ka: ck.KeyAnalysis, site
                 ok = bool(storages & ident)
                 details[k.name] = f"hook {'reads' if ok else 'does not read'} the address of {sorted(storages)}"
             elif kind == "fallback":
+                if not (storages & set(facts.inst_attrs(k))):
+                    raise AnalysisError(f"{site.ref}: storage {sorted(storages)} of captured `{k.name}.{attr}` is not an instance attribute: cannot tell how it enters the key")
                 ok = False
                 details[k.name] = f"instance dict: {sorted(storages)} hashed by content"
             elif kind in ("identity", "custom-hash", "error"):
@@ -504,6 +514,19 @@ def rule_prepare_cache(rep: Report, ix, facts: ck.ClassFacts) -> None:
     # ---- the validity test: `if state.<a> == <cache read K>: return cache` + `cache[K] = state.<a>`
     compared: dict[str, str] = {}  # attribute -> cache key
     test_line = None
+    # hoisted sub-expressions: local names bound to `state.<a>`
+    alias = {}
+    for n in ck.walk_no_classes(prep.node):
+        if isinstance(n, ast.Assign) and len(n.targets) == 1 and isinstance(n.targets[0], ast.Name) and ck.is_attr_of(n.value, "state"):
+            alias[n.targets[0].id] = n.value.attr
+
+    def state_attr(e: ast.AST) -> str | None:
+        if ck.is_attr_of(e, "state"):
+            return e.attr
+        if isinstance(e, ast.Name) and e.id in alias:
+            return alias[e.id]
+        return None
+
     for st in prep.node.body:
         if not (isinstance(st, ast.If) and any(isinstance(s, ast.Return) for s in st.body)):
             continue
@@ -514,7 +537,7 @@ def rule_prepare_cache(rep: Report, ix, facts: ck.ClassFacts) -> None:
                 continue
             sides = [t.left, t.comparators[0]]
             for a, b in (sides, sides[::-1]):
-                if ck.is_attr_of(a, "state"):
+                if state_attr(a) is not None:
                     key = None
                     for n in ast.walk(b):
                         if isinstance(n, ast.Call) and isinstance(n.func, ast.Attribute) and n.func.attr == "get" and n.args and isinstance(n.args[0], ast.Constant):
@@ -522,17 +545,17 @@ def rule_prepare_cache(rep: Report, ix, facts: ck.ClassFacts) -> None:
                         if isinstance(n, ast.Subscript) and isinstance(n.slice, ast.Constant):
                             key = n.slice.value
                     if key is not None:
-                        found[a.attr] = key
+                        found[state_attr(a)] = key
         if found:
             compared = found
             test_line = st.lineno
             break
     stored = {}
     for n in ck.walk_no_classes(prep.node):
-        if isinstance(n, ast.Assign) and ck.is_attr_of(n.value, "state"):
+        if isinstance(n, ast.Assign) and state_attr(n.value) is not None:
             for t in n.targets:
                 if isinstance(t, ast.Subscript) and isinstance(t.slice, ast.Constant):
-                    stored[t.slice.value] = n.value.attr
+                    stored[t.slice.value] = state_attr(n.value)
     valid = {a: k for a, k in compared.items() if stored.get(k) == a}
     rep.oblige("prepare-cache:validity-test-present", bool(valid), {"compared": compared, "stored": stored})
     if not valid:
